@@ -3,3 +3,4 @@ CONSTANTS
   GenNodes = 3
   GenLines = 2
   GenCols = 8
+  GenWrapNodes = 3
